@@ -130,6 +130,7 @@ func (rt *Runtime) contextData() map[string]interface{} {
 func (rt *Runtime) plainData() map[string]interface{} {
 	v := rt.Variant
 	d := map[string]interface{}{
+		"rx": []string{"^a", "c!$", "^x|y$"}[v%3],
 		"n1": 3 + v, "n2": 7, "s1": "ab<c" + strings.Repeat("!", v), "s2": "x y", "b1": true, "b0": false,
 		"xs":  []int{4 + v, 5, 6},
 		"ss":  []string{"p", "q&"},
